@@ -141,6 +141,11 @@ def canon(e):
         if seg == "len":
             inner = canon(e[2][0])
             return "len(%s)" % ("data" if "data" in inner or "branch" in inner or "Stream" in inner else inner)
+        if seg in ("checked_add", "saturating_add", "wrapping_add") and len(e[2]) == 2:
+            # overflow-checked spelling of the same sum
+            return "Add(%s,%s)" % (canon(e[2][0]), canon(e[2][1]))
+        if seg in ("ok_or", "ok_or_else", "unwrap", "expect") and e[2]:
+            return canon(e[2][0])
         if seg in ("deref", "branch", "clone", "as_ref"):
             return canon(e[2][0]) if e[2] else seg
         if seg == "data":
